@@ -41,6 +41,36 @@ def do_call(c, record):
             return {'ok': enc_diff(plain(N.diff_notebooks(nbformat.from_dict(a), nbformat.from_dict(b))))}
         except Exception as e:
             return {'err': exc_class(e), 'what': '%s: %s' % (type(e).__name__, str(e)[:200])}
+    if t == 'cli':
+        # `nbdiff --out d.json [flags] a.ipynb b.ipynb` run in-process from a directory holding (or not) an
+        # nbdime_config.json; the command configures the global differ itself, so it is followed by a reset
+        import nbdime.nbdiffapp as app
+        d = os.environ['C12_CWD']
+        cfgp = os.path.join(d, 'nbdime_config.json')
+        if c.get('cfg') is None:
+            if os.path.exists(cfgp):
+                os.unlink(cfgp)
+        else:
+            with open(cfgp, 'w') as f:
+                json.dump(c['cfg'], f)
+        for name in ('a', 'b'):
+            with open(os.path.join(d, name + '.ipynb'), 'w') as f:
+                json.dump(dec(c[name]), f)
+        cwd0 = os.getcwd()
+        os.chdir(d)
+        try:
+            if os.path.exists('d.json'):
+                os.unlink('d.json')
+            try:
+                args = app._build_arg_parser('nbdiff').parse_args(['--out', 'd.json'] + c['flags'] + ['a.ipynb', 'b.ipynb'])
+                rc = app.main_diff(args)
+                res = {'ok': [rc, enc_diff(json.load(open('d.json')))]}
+            except BaseException as e:  # noqa  (argparse exits)
+                res = {'err': exc_class(e) if isinstance(e, Exception) else type(e).__name__, 'what': '%s: %s' % (type(e).__name__, str(e)[:200])}
+        finally:
+            os.chdir(cwd0)
+            N.reset_notebook_differ()
+        return res
     if t == 'merge':
         b, l, r = dec(c['b']), dec(c['l']), dec(c['r'])
         res = mergelib.run_merge(b, l, r, mergelib.Args(*c['args']))
@@ -55,7 +85,7 @@ def config_suffix(calls, i):
     """configuration calls before index i since the last reset"""
     out = []
     for c in calls[:i]:
-        if c['t'] == 'reset':
+        if c['t'] in ('reset', 'cli'):
             out = []
         elif c['t'] in ('targets', 'ignores'):
             out.append(c)
@@ -84,15 +114,29 @@ def fresh_in_child(calls, i):
 
 
 def main():
+    import tempfile
     job = json.load(sys.stdin)
     calls = job['calls']
+    tmp = tempfile.mkdtemp(prefix='c12-')
+    os.makedirs(os.path.join(tmp, 'cwd')); os.makedirs(os.path.join(tmp, 'empty'))
+    os.environ['C12_CWD'] = os.path.join(tmp, 'cwd')
+    os.environ['JUPYTER_CONFIG_DIR'] = os.path.join(tmp, 'empty')
+    os.environ['JUPYTER_CONFIG_PATH'] = os.path.join(tmp, 'empty')
+    try:
+        _main(job, calls)
+    finally:
+        import shutil
+        shutil.rmtree(tmp, ignore_errors=True)
+
+
+def _main(job, calls):
     if '--single' in sys.argv:
         i = job['index']
         for c in config_suffix(calls, i):
             do_call(c, False)
         json.dump(do_call(calls[i], False), sys.stdout)
         return
-    idx = [i for i, c in enumerate(calls) if c['t'] in ('diff', 'merge')]
+    idx = [i for i, c in enumerate(calls) if c['t'] in ('diff', 'merge', 'cli')]
     fresh = {i: fresh_in_child(calls, i) for i in idx}          # before the parent executes anything
     hist = [do_call(c, True) for c in calls]
     json.dump({'hist': hist, 'fresh': {str(i): v for i, v in fresh.items()}}, sys.stdout)
